@@ -119,3 +119,66 @@ package db
 
 //@ func NewDocument
 //@   ensures[fresh] result != nil && !old(allocated(result)) && result.ID == docid
+
+// ---- what the gateway adds on the read paths: only the documented reserved properties ----
+
+// the reserved properties a 1.x-style body may carry in addition to the stored body
+//@ pred reserved1x(k string) bool
+//@   is k == BodyId || k == BodyRev || k == BodyCV || k == BodyRevisions || k == BodyExpiry || k == BodyDeleted || k == BodyAttachments
+
+// removes "ver" from each attachment's metadata map (maps of type map[string]any); nothing else is written
+// (All maps with string keys and `any` values -- Body, AttachmentsMeta, map[string]any -- share one heap component
+// in the engine, so the frame is made precise by [only-ver]: in EVERY such map only the key "ver" can change.)
+//@ func DeleteAttachmentVersion
+//@   frame on
+//@   modifies elems(map[string]any)
+//@   ensures[only-ver] forall m map[string]any, k string :: {m[k]} {k in m} k != "ver" ==> ((k in m) <==> old(k in m)) && m[k] == old(m[k])
+//@   loop 1 invariant[only-ver] forall m map[string]any, k string :: {m[k]} {k in m} k != "ver" ==> ((k in m) <==> old(k in m)) && m[k] == old(m[k])
+
+// TRUSTED frame: shallow-copies the attachments map (fresh AttachmentsMeta), reads attachment bodies from the
+// bucket and stores them under "data" in the per-attachment metadata maps (type map[string]any, shared with the
+// original), deleting "stub". No other gateway memory is written.
+// In maps that existed before the call only the keys "data" and "stub" can change.
+//@ func DatabaseCollection.loadAttachmentsData
+//@   trusted
+//@   modifies elems(map[string]any)
+//@   ensures[only-data-stub] forall m map[string]any, k string :: {m[k]} {k in m} old(allocated(m)) && k != "data" && k != "stub" ==> ((k in m) <==> old(k in m)) && m[k] == old(m[k])
+
+// The bytes handed to the splice are the revision's stored body bytes, untouched; the first two injected pairs
+// are _id and _rev with the revision's own id and revision id; every injected key is a documented reserved
+// property ([injected]). A failure yields (nil, err).
+//@ pred inject1xOK(kvs []base.KVPair, rev *DocumentRevision) bool
+//@   is len(kvs) >= 2 && kvs[0].Key == BodyId && kvs[0].Val == box(rev.DocID) && kvs[1].Key == BodyRev && kvs[1].Val == box(rev.RevID) &&
+//@      (forall i int :: {kvs[i]} 0 <= i && i < len(kvs) ==> reserved1x(kvs[i].Key))
+
+//@ func DocumentRevision.Inject1xBodyProperties
+//@   requires rev != nil
+//@   modifies elems(map[string]any)
+//@   before[mid-exp]       call Format#1 inject1xOK(kvPairs, rev)                   // intermediate cut points: keep each obligation small
+//@   before[mid-load]      call loadAttachmentsData#1 inject1xOK(kvPairs, rev)
+//@   before[mid-delver]    call DeleteAttachmentVersion inject1xOK(kvPairs, rev)
+//@   before[body]          call InjectJSONProperties#1 $0 == rev.BodyBytes
+//@   before[injected]      call InjectJSONProperties#1 inject1xOK($1, rev)
+//@   ensures[error] !isNilErr(result1) ==> result0 == nil
+
+//@ func DocumentRevision.As1xBytes
+//@   requires rev != nil
+//@   modifies elems(map[string]any)
+//@   ensures[error] !isNilErr(err) ==> b == nil
+
+// Decodes the stored body bytes (in number mode, see Body.Unmarshal) into a map of its own. (Frame report: the
+// remaining FRAME-GAP is the cell of the local variable b, which Unmarshal writes through &b -- allocated in
+// this function, not visible to callers.)
+//@ func DocumentRevision.Body
+//@   modifies c19NumberMode, elems(Body)
+//@   ensures[error] !isNilErr(err) ==> b == nil
+
+// The mutable 1.x body is the decoded stored body plus reserved properties: _id and _rev are the revision's
+// own, _deleted is set for a tombstone; a failure yields (nil, err). (The writes go to the map Body() returned
+// and, for attachments, to the per-attachment metadata maps.)
+//@ func DocumentRevision.Mutable1xBody
+//@   requires rev != nil
+//@   modifies elems(Body), elems(map[string]any), c19NumberMode
+//@   ensures[error]   !isNilErr(err) ==> b == nil
+//@   ensures[id-rev]  isNilErr(err) ==> b != nil && b[BodyId] == box(rev.DocID) && b[BodyRev] == box(rev.RevID)
+//@   ensures[deleted] isNilErr(err) && rev.Deleted ==> b[BodyDeleted] == box(true)
